@@ -217,6 +217,29 @@ def run(ctx, rep):
         ok, why = reasons[ty]
         rep.require(ok, "iterator-progress", fn["qual"], wh(fn["span"]), why, "%s: %s" % (fn["qual"], why))
     rep.floor("iterator-progress", "in-crate Iterator::next bodies", len(nexts), 7)
+    # "never yields more records than its declared count": the count a `next` spends is the one the constructor was given - every
+    # in-crate constructor of an iterator that carries a `count` stores its count argument as it is (or something not larger)
+    from ..prov import norm as pnorm_, show as pshow_
+    n_ctor = 0
+    for ty in sorted(nexts):
+        adt = F.adts.get(ty)
+        if not adt or not any(fd["name"] == "count" for fd in adt["variants"][0]["fields"]):
+            continue
+        ci = [i for i, fd in enumerate(adt["variants"][0]["fields"]) if fd["name"] == "count"][0]
+        for cf in F.all_fns():
+            if cf["kind"] == "Closure" or not cf["qual"].startswith(ty + "::") or norm(cf["sig"]["output"]).split("<")[0] not in (ty, "Self"):
+                continue
+            can = analyze_fn(F, cf)
+            for t_, st_ in can.ret_leaves() or []:
+                if not (t_.op == "agg" and t_.args[1] == ty):
+                    continue
+                n_ctor += 1
+                cv = pnorm_(t_.args[4][ci])
+                inner = cv[2] if (cv and cv[0] == "as") else cv
+                okc = isinstance(inner, tuple) and inner[:1] == ("p",) or inner == ("c", 0)
+                rep.require(okc, "declared-count", "%s|count" % cf["qual"], wh(cf["span"]), "the count field is the constructor's count argument, unchanged",
+                            "%s stores %s as the count: the iterator's bound is no longer the declared count" % (cf["qual"], pshow_(cv)[:160]))
+    rep.floor("declared-count", "constructors of counted iterators", n_ctor, 4)
     # (2) loops
     nloops = 0
     for fn in F.all_fns():
